@@ -294,6 +294,7 @@ func c03R6(r *Report) {
 		// the pinned tree has no such dereference, the self-test keeps a positive example
 		nilableFieldRule(r, "", "mitm", "proxyutil", "header", "httpspec", "har", "martianlog", "marbl")
 		funcFieldCallsRule(r, "", "mitm", "proxyutil", "header", "httpspec", "har", "martianlog", "marbl")
+		tlsConfigFreshRule(r)
 		// no recover exists, which is why the rule matters; note if one appears
 		for _, f := range fs {
 			for _, c := range calls(f, "builtin.recover") {
